@@ -814,3 +814,50 @@ pub fn duplicate_templates(nprops: u8, max_phi: usize, need_inner_q: bool, ext: 
     out.dedup();
     out
 }
+
+/// Pair family: every ordered pair (A, B) of a pool of closed formulae joined by `&` / `|`, and
+/// (for a smaller prefix of the pool) nested under a domain-restricted quantifier with a jump:
+/// `Q{x} in %d%: (A & (@{x}: B))`. Two occurrences of related sub-formulae in two different
+/// contexts inside ONE formula is the shape every cache-related defect needs.
+pub fn pair_family(pool: &[F], nest: usize, with_domains: bool) -> Vec<F> {
+    let mut out = vec![];
+    for a in pool {
+        for b in pool {
+            out.push(F::bin(Bi::And, a.clone(), b.clone()));
+            out.push(F::bin(Bi::Or, a.clone(), b.clone()));
+        }
+    }
+    let small: Vec<&F> = pool.iter().take(nest).collect();
+    for a in &small {
+        for b in &small {
+            let (sa, sb) = (shift_levels(a, 0, 1), shift_levels(b, 0, 1));
+            for q in [Hy::Bind, Hy::Exists, Hy::Forall] {
+                let body = F::bin(Bi::And, sa.clone(), F::hy(Hy::Jump, 0, None, sb.clone()));
+                out.push(F::hy(q, 0, if with_domains { Some(0) } else { None }, body));
+            }
+        }
+    }
+    out
+}
+
+/// Pool of closed plain formulae used by `pair_family` in the plain checks.
+pub fn plain_pool(nm: &Names) -> Vec<F> {
+    let mut p: Vec<F> = collision_alphabet(nm).into_iter().filter(|f| !f.uses_wild_or_dom()).collect();
+    for s in [
+        "a",
+        "AX a",
+        "!{x}: AX (~{x} & AF {x})",
+        "3{x}: @{x}: (AX {x} & EF ~{x})",
+        "!{x}: 3{y}: (@{x}: ~{y} & AX {x}) & (@{y}: AX {y})",
+        "AF (!{x}: (AX (~{x} & AF {x})))",
+        "3{x}: V{y}: (@{y}: EF {x})",
+        "a EW (!{x}: AX {x})",
+        "(!{x}: AG EF {x}) AU a",
+        "!{x}: EG ({x} | a)",
+    ] {
+        p.push(f(s, nm));
+    }
+    p.sort();
+    p.dedup();
+    p
+}
